@@ -47,15 +47,19 @@ Scan(full, anc, cancel) ==
      \/ /\ cancel                      \* the cancellation took effect
         /\ ep' = ep /\ dead' = TRUE /\ last' = last
 
-Stage(empty) ==
-  /\ Issue([op |-> "Stage", empty |-> empty])
+\* bad: some files of the batch cannot be opened any more when they are transmitted
+\* (by the source of the staging resp. by the endpoint that supplies)
+Stage(empty, bad) ==
+  /\ ~(empty /\ bad)
+  /\ Issue([op |-> "Stage", empty |-> empty, bad |-> bad])
   /\ LET o == LStage(Cfg, ep, IF empty THEN <<>> ELSE <<"p">>) IN
      /\ ep' = LReceiveAll(o.st, o.st.pend)
      /\ dead' = (o.res.err # "")
   /\ UNCHANGED last
 
-Supply(empty) ==
-  /\ Issue([op |-> "Supply", empty |-> empty])
+Supply(empty, bad) ==
+  /\ ~(empty /\ bad)
+  /\ Issue([op |-> "Supply", empty |-> empty, bad |-> bad])
   /\ UNCHANGED <<ep, last, dead>>
 
 \* the driver's transitions turn the root into (a copy of) the populated source
@@ -81,7 +85,7 @@ Edit(v) ==
 
 Next ==
   \/ \E f \in Fulls, a \in Ancs, c \in BOOLEAN : Scan(f, a, c)
-  \/ \E e \in BOOLEAN : Stage(e) \/ Supply(e)
+  \/ \E e \in BOOLEAN, b \in BOOLEAN : Stage(e, b) \/ Supply(e, b)
   \/ \E c \in BOOLEAN : Trans(c)
   \/ Poll
   \/ \E v \in Vals : Edit(v)
